@@ -123,7 +123,10 @@ func vh_C13_manager_save() {
 				verifAssert("C10.manager.cookie-carries-store-key", t.id == kv.savedKey)
 			}
 			// opacity: neither the cookie nor the stored value contains the tokens in clear
-			verifAssert("C02.manager.opaque-stored-value", string(kv.savedVal) != s.AccessToken || s.AccessToken == "")
+			for _, secret := range []string{s.AccessToken, s.IDToken, s.RefreshToken, s.Email, s.User} {
+				verifOpaque("C02.manager.opaque-stored-value", string(kv.savedVal), secret)
+				verifOpaque("C02.manager.opaque-cookie", c.Value, secret)
+			}
 		}
 	} else {
 		verifReach("failed")
@@ -131,34 +134,43 @@ func vh_C13_manager_save() {
 }
 
 // Save -> Load round trip through the store; a re-save re-uses the ticket
-// verif: unwind=8 strlen=8 also=C13,C02 steps=2000000
+// verif: unwind=8 strlen=12 also=C13,C02,C09 steps=2000000
 func vh_C10_manager_roundtrip() {
 	kv := &vKV{reliable: true}
 	opts := vOpts()
 	m := NewManager(kv, opts)
 	rw := &vRW{}
 	s := vSess()
+	// the session was created age seconds ago (refresh re-stamps CreatedAt: C12.refreshed-restamped)
+	age := ndInt("age-seconds")
+	verifAssume(age >= -100000 && age <= 10000000)
+	created := time.Unix(time.Now().Unix()-int64(age), 0)
+	s.CreatedAt = &created
 	verifAssume(m.Save(rw, vReq(), s) == nil)
 	set := verifSetCookies(rw.Header())
 	verifAssume(len(set) == 1)
 	kv.reliable = false
 	got, err := m.Load(vReq(set[0]))
+	expireSec := int(opts.Expire / time.Second)
 	if err == nil {
 		verifReach("loaded")
+		verifAssert("C09.manager.not-past-lifetime-from-creation", age < expireSec+1 && age > -301)
 		verifAssert("C13.manager.load-ok-implies-store-ok", kv.loadErr == nil && !kv.corrupt)
 		verifAssert("C10.manager.load-uses-ticket-key", kv.loadKey == kv.savedKey)
 		verifAssert("C10.manager.fields-intact", got.AccessToken == s.AccessToken && got.IDToken == s.IDToken && got.RefreshToken == s.RefreshToken && got.Email == s.Email && got.User == s.User)
 	} else {
 		verifReach("load-failed")
 		verifAssert("C13.manager.load-error-no-session", got == nil)
-		verifAssert("C13.manager.load-error-only-on-fault", kv.loadErr != nil || kv.corrupt)
+		verifAssert("C13.manager.load-error-only-on-fault", kv.loadErr != nil || kv.corrupt || age >= expireSec || age <= -300)
 	}
 	// a second save from a request carrying the cookie keeps the ticket (all cookies of the session share the id)
 	kv.reliable = true
 	first := kv.savedKey
 	rw2 := &vRW{}
 	verifAssume(m.Save(rw2, vReq(set[0]), s) == nil)
-	verifAssert("C10.manager.resave-reuses-ticket", kv.savedKey == first)
+	if age < expireSec && age > -300 {
+		verifAssert("C10.manager.resave-reuses-ticket", kv.savedKey == first)
+	}
 }
 
 // Clear: error iff the stored session could not be removed; the presented ticket's key is what is cleared
